@@ -362,6 +362,11 @@ func c17(ctx *Ctx) {
 	c17ServiceE2E(ctx)
 	out, code := runSelfChild(20*time.Second, "c17scrape")
 	ctx.Count("corpus:scrape-vs-start")
+	out2, code2 := runSelfChild(20*time.Second, "c17close")
+	ctx.Count("corpus:scrape-vs-last-close")
+	if code2 != 0 || !strings.Contains(out2, "close survived") {
+		ctx.Monitor("C17/scrape-vs-last-close", "a scrape overlapping the close of a client's last tunnel crashes or keeps counting: "+tailStr(out2, 400), map[string]interface{}{"child": "c17close", "exit": code2})
+	}
 	if code != 0 || !strings.Contains(out, "scrape survived") {
 		ctx.Monitor("C17/scrape-vs-start-panic", "a scrape overlapping the start of a tunnel crashes or miscounts: "+tailStr(out, 400), map[string]interface{}{"child": "c17scrape", "exit": code})
 	}
